@@ -34,6 +34,10 @@ impl Cases {
             writeln!(side, "{}", d).unwrap();
         }
         for (k, items) in files.iter().enumerate() {
+            if items.is_empty() {
+                let _ = fs::remove_file(out.join(format!("shard_{k}.v")));
+                continue;
+            }
             let mut f = fs::File::create(out.join(format!("shard_{k}.v"))).unwrap();
             writeln!(f, "From Selene Require Import Corr.{}.", self.module).unwrap();
             writeln!(f, "Open Scope string_scope. Open Scope list_scope.").unwrap();
